@@ -149,3 +149,15 @@ package sender
 //@ func (*sender.scopedWalker).walkFn
 //@   results ret
 //@   ensures[C13] [skipdir-only-for-directories] isSkipDir(ret) && err == nil ==> modeIsDir(infoMode(entryInfo(data(d))))
+
+// ---------------------------------------------------------------- C17: frame sizes
+// Every data write that can reach the multiplexed writer stays within
+// maxMessageSize (262144): literal chunks, whole-file chunks, checksums.
+//@ func (*sender.mapStruct).ptr
+//@   ensures [length] err == nil ==> len(result) == max(l, 0)
+//@ func (*sender.Transfer).simpleSendToken
+//@   at[C17] (io.Writer).Write: assert [chunk-within-frame-limit] len(arg1) <= 262144
+//@ func (*sender.Transfer).sendFile
+//@   at[C17] (io.Writer).Write: assert [chunk-within-frame-limit] len(arg1) <= 262144
+//@ func (*sender.Transfer).hashSearch
+//@   at[C17] (io.Writer).Write: assert [checksum-within-frame-limit] len(arg1) <= 262144
